@@ -111,7 +111,7 @@ func (P) Generate(g *core.Gen) {
 	cs = append(cs, txTestCases("tx_invalid.json", false)...)
 	every := g.N(10, 1)
 	cs = append(cs, taprootRefCases(every, int(g.Seed%uint64(every)))...)
-	cs = append(cs, mutateVectors(r.Fork(), cs, g.N(2, 6))...)
+	cs = append(cs, mutateVectors(r.Fork(), cs, g.N(1, 6))...)
 	// generated programs
 	t0 := time.Now()
 	tick := func(what string) {
@@ -123,7 +123,7 @@ func (P) Generate(g *core.Gen) {
 	keys := makeKeys(r, 5)
 	cs = append(cs, genRegress()...)
 	cs = append(cs, genLimits(g, r, keys)...)
-	cs = append(cs, genSoup(g, r, keys, g.N(7500, 300000))...)
+	cs = append(cs, genSoup(g, r, keys, g.N(7000, 300000))...)
 	cs = append(cs, genSigs(g, r, keys, g.N(4000, 180000))...)
 	cs = append(cs, genWitnessMisc(g, r, keys, g.N(2000, 90000))...)
 	tick("spends built")
